@@ -369,6 +369,15 @@ class Harness:
                     raise SystemExit(f"injected handler fault in {parent}")
                 if kind == "key":
                     raise KeyError(parent)
+                if kind == "bare":
+                    raise RuntimeError          # an exception without arguments (a bare `raise SomeError`)
+                if kind == "assert":
+                    assert parent is None and parent is not None      # an AssertionError without a message
+                if kind == "chained":
+                    try:
+                        {}["missing"]
+                    except KeyError as inner:
+                        raise ValueError from inner      # no arguments, with a cause
                 raise RuntimeError(f"injected handler fault in {parent}")
             elif k == "strategy":
                 from pydsol.core.simulator import ErrorStrategy
